@@ -433,6 +433,9 @@ def run(prog, rep, tier):
 
     # ---------------------------------------------------------------- R12.3
     r3 = rep.rule("R12.3", "insert's duplicate test and remove's retain test compare the same identity fields; the purge of a cache's VRPs skips none")
+    # a reset installs the cache's new set over its old one, and only over its old one (shared with R13.1)
+    from . import c13 as _c13
+    _c13.check_reset_scope(prog, r3)
     from ..util import remove_while_indexing
     dsv = view(prog, prog.one(r"rustybgp_table::RpkiTable::drop_source"))
     r3.analysed(dsv.name)
